@@ -586,6 +586,35 @@ where
     }
 }
 
+impl< K, V, C> SplayTree<K, V, C>
+where
+    C: Fn(&K, &K) -> Ordering,
+{
+
+    fn index(&mut self, index: & K) -> /*@ (res: @*/ &V /*@ ) @*/
+    //@ requires old(self).wf(), exists|i: int| #[trigger] eq_at(old(self).cmp(), old(self).view(), *index, i),
+    //@ ensures
+    //@     final(self).view() == old(self).view(), final(self).count() == old(self).count(), final(self).cmp() == old(self).cmp(),
+    //@     exists|i: int| #[trigger] eq_at(old(self).cmp(), old(self).view(), *index, i) && *res == old(self).view()[i].1,
+    {
+        self.get(index).expect("key not present in SplayMap")
+    }
+}
+impl< K, V, C> SplayTree<K, V, C>
+where
+    C: Fn(&K, &K) -> Ordering,
+{
+    fn index_mut(&mut self, index: &K) -> /*@ (res: @*/ &mut V /*@ ) @*/
+    //@ requires old(self).wf(), exists|i: int| #[trigger] eq_at(old(self).cmp(), old(self).view(), *index, i),
+    //@ ensures
+    //@     final(self).count() == old(self).count(), final(self).cmp() == old(self).cmp(),
+    //@     exists|i: int| #[trigger] eq_at(old(self).cmp(), old(self).view(), *index, i) && *res == old(self).view()[i].1
+    //@         && final(self).view() == old(self).view().update(i, (old(self).view()[i].0, *final(res))),
+    {
+        self.get_mut(index).expect("key not present in SplayMap")
+    }
+}
+
 impl<K, V, C> SplayTree<K, V, C>
 where
     C: Fn(&K, &K) -> Ordering,
